@@ -59,6 +59,8 @@ def execute(c):
     hasp = c["hasp"]
     p = float(core.unrat(c["p"])) if hasp else None
     api = c["api"]
+    y_before = y.copy()
+    c["variant"] = "pgu" if hasp else "gu"
     if api == "kernel":
         out = ops.ws2dpgu(y, lam, nd, p) if hasp else ops.ws2dgu(y, lam, nd)
     else:
@@ -81,6 +83,7 @@ def execute(c):
         r = da.hdc.whit.whits(nd, **kw).transpose(..., "time")
         out = np.asarray(r).reshape(-1)
     c["out"] = [int(v) for v in np.asarray(out).tolist()]
+    c["inmod"] = not np.array_equal(y, y_before, equal_nan=True)      # the caller's array must come back untouched
     c["lam"] = fl(lam)
     c["hints"] = []
     if hasp and lam != 0.0:
@@ -148,6 +151,9 @@ def gen_cases(tier, seed):
             c["dims"] = rng.choice([["time", "y", "x"], ["y", "x", "time"], ["y", "time", "x"]])
             c["dask"] = rng.random() < 0.15
         add(c)
+    for _ in range(2 if quick else 10):      # p = 1/2 through the accessor
+        y = gaps(rng, series(rng, 10, "season"), -3000, 0.1)
+        add({"op": "fixed", "api": "whits_s", "y": [str(x) for x in y], "nd": "-3000", "lam": fl(10.0), "hasp": True, "p": fl(0.5), "dims": ["time", "y", "x"]})
     # boundary numbers of valid cells: 0, 1 -> pass-through; 2, 3, 4 -> the curve (a line through two points)
     for nv in (0, 1, 2, 2, 3, 4):
         for hasp in (False, True):
